@@ -24,7 +24,7 @@ VARIABLES req, prefix, trail, opts, started, disclosed,
 vars == <<req, prefix, trail, opts, started, disclosed, history>>
 
 Init == /\ req \in ReqPaths /\ prefix \in Prefixes /\ trail \in BOOLEAN
-        /\ opts \in SUBSET {"c", "l"}
+        /\ opts \in (SUBSET {"c", "l"}) \cup {{"L"}, {"l", "L"}}      \* L = --copy-links: whether or not the daemon knows the option, nothing outside is disclosed
         /\ started = "no" /\ disclosed = {}
         /\ history \in {"fresh", "other-module", "replaced"}
 
